@@ -201,7 +201,12 @@ func genC25Unpad(g *Gen) {
 	bs := []int{16, 16, 16, 16, 8, 32}[g.R.Intn(6)]
 	nblocks := g.R.Range(1, 5)
 	var b []byte
-	switch g.R.Pick(30, 10, 10, 15, 10, 5, 10, 10) {
+	switch g.R.Pick(30, 10, 10, 15, 10, 5, 10, 10, 8) {
+	case 8: // padding value just above the block size, but consistent (only the `padding > blockSize` guard rejects it)
+		k := bs + g.R.Range(1, 2)
+		nb := g.R.Range(2, 5)
+		b = append(g.R.Bytes(nb*bs-k), bytes.Repeat([]byte{byte(k)}, k)...)
+		g.Count("unpad:too-big-but-consistent")
 	case 0: // valid padding k = 1..bs
 		k := g.R.Range(1, bs)
 		b = append(g.R.Bytes(nblocks*bs-k), bytes.Repeat([]byte{byte(k)}, k)...)
@@ -255,8 +260,12 @@ func genC25Dec(g *Gen, large int) {
 	}
 	p := g.R.Bytes(c25PayloadLen(g, large))
 	padded := c25StdPad(p)
-	kind := g.R.Pick(30, 8, 8, 8, 8, 8, 6, 6, 6, 6, 3, 3)
+	kind := g.R.Pick(30, 8, 8, 8, 8, 8, 6, 6, 6, 6, 3, 3, 6)
 	switch kind {
+	case 12: // padding value 17/18, consistent: only the `padding > blockSize` guard rejects it
+		k := g.R.Range(17, 18)
+		padded = append(g.R.Bytes(16*g.R.Range(2, 4)-k), bytes.Repeat([]byte{byte(k)}, k)...)
+		g.Count("dec:pad-too-big-consistent")
 	case 1: // bad padding: last byte zero
 		padded[len(padded)-1] = 0
 		g.Count("dec:pad-last-zero")
